@@ -686,3 +686,90 @@ def r54_qpq_reweight(ctx):
                   'after `%s.elect(...)` the count can record its next action (or end) without re-weighting the ballots that elected %s: the '
                   'ballots\' fractional numbers of elected candidates no longer add up to the number elected' % (recv.id, recv.id))
     ctx.floor(R, 'quotient elections', n, 1)
+
+
+# ---------------------------------------------------------------------------
+# R55 QPQ stage bookkeeping equals Woodall's 2.3 - 2.5 (compared with reference statements modulo renaming)
+# ---------------------------------------------------------------------------
+
+QPQ_STAGE = [
+    ('the inactive-ballot total starts each stage at zero', 'E.tx = E.V0'),
+    ('the active-ballot count starts each stage at zero', 'E.va = E.V0'),
+    ('contributing-ballot counts and elected-candidate sums of the hopefuls start each stage at zero',
+     'for c in E.C.hopeful():\n    c.vote = E.V0\n    c.tc = E.V0'),
+    ('2.3/2.4: an exhausted ballot adds the candidates it has elected to tx; an active ballot counts towards va, and towards vc and tc of its top hopeful',
+     'for b in E.ballots:\n    if b.exhausted:\n        E.tx += b.weight * b.multiplier\n    else:\n        E.va += b.multiplier\n'
+     '        b.topCand.tc += b.weight * b.multiplier\n        b.topCand.vote += b.multiplier'),
+    ('2.3: quotient qc = vc / (1 + tc) for every hopeful', 'for c in E.C.hopeful():\n    c.quotient = c.vote / (E.V1 + c.tc)'),
+]
+
+
+def r55_qpq_stage(ctx):
+    R = 'R55'
+    from .common import ctext, ctext_ref
+    qs = [ri for ri in rules(ctx) if ri.short == 'qpq']
+    need(len(qs) == 1, 'R55: rule class qpq not found')
+    ri = qs[0]
+    f, cfg = ri.count, ri.cfg
+    loop = ri.main_loop()
+    body_stmts = [s_ for s_ in ast.walk(loop) if isinstance(s_, ast.stmt) and s_ is not loop and s_ in cfg.of_stmt]
+    texts = {}
+    for s_ in body_stmts:
+        try:
+            texts.setdefault(ctext(ctx, f, s_), []).append(s_)
+        except Exception:      # pragma: no cover
+            continue
+    found = []
+    for what, ref in QPQ_STAGE:
+        want = ctext_ref(ref)
+        hits = texts.get(want, [])
+        ctx.check(len(hits) == 1, R, hits[0] if hits else loop, f, 'QPQ stage: ' + what,
+                  ' '.join(ref.split()), 'no statement of the stage loop equals (up to renaming) `%s`' % ' '.join(ref.split()))
+        found.append(hits[0] if len(hits) == 1 else None)
+    # order: zeroing -> ballot pass -> quotients -> quota -> choice of the highest quotient
+    quota_n = [x for x in cfg.nodes_in(loop) if x.kind == 'stmt' and isinstance(x.ast, ast.Assign) and ctx.canon(x.ast.targets[0], f) == 'E.quota']
+    choice = [x for x in cfg.nodes_in(loop) if x.kind == 'stmt' and isinstance(x.ast, ast.Assign) and isinstance(x.ast.value, ast.Call)
+              and unparse(x.ast.value.func) == 'max' and 'quotient' in unparse(x.ast.value)]
+    if all(x is not None for x in found) and len(quota_n) == 1 and len(choice) == 1:
+        chain = [cfg.of_stmt[found[0]], cfg.of_stmt[found[1]], cfg.of_stmt[found[2]], cfg.of_stmt[found[3]], cfg.of_stmt[found[4]], quota_n[0], choice[0]]
+        head = cfg.of_stmt[loop]
+        oko = True
+        for a, b in zip(chain[2:], chain[3:]):
+            # a dominates b within one pass: b not reachable from the loop head avoiding a
+            if b in cfg.reach([head], avoid=[a], edge_ok=lambda x, y, lab: not (x is head and lab is False)):
+                oko = False
+        for z in chain[:2]:
+            if chain[3] in cfg.reach([head], avoid=[z], edge_ok=lambda x, y, lab: not (x is head and lab is False)):
+                oko = False
+        ctx.check(oko, R, loop, f, 'QPQ stage: totals are zeroed, then the ballots are walked, then quotients, then the quota, then the highest quotient is looked for',
+                  'each step dominates the next within a pass of the main loop', 'the stage steps are not in this order on every path')
+    else:
+        ctx.bad(R, loop, f, 'QPQ stage: totals are zeroed, then the ballots are walked, then quotients, then the quota, then the highest quotient is looked for',
+                'quota assignment / choice of the highest quotient not found once each in the stage loop')
+    # 2.5a: each ballot of the winner is deemed to have elected 1/qc candidates
+    ws = [x for x in body_stmts if isinstance(x, ast.Assign) and isinstance(x.targets[0], ast.Attribute) and x.targets[0].attr == 'weight']
+    okw = False
+    if len(ws) == 1:
+        v = ws[0].value
+        if isinstance(v, ast.Name):
+            rd = reaching_defs(cfg, v.id, cfg.of_stmt[ws[0]])
+            v = rd[0].ast.value if len(rd) == 1 and rd[0] is not cfg.entry and isinstance(rd[0].ast, ast.Assign) else None
+        def _is_winner_quotient(e):
+            if isinstance(e, ast.Attribute) and e.attr == 'quotient':
+                return True
+            if isinstance(e, ast.Name):        # the highest quotient itself (the winner's, by construction of the tied set)
+                rd2 = reaching_defs(cfg, e.id, cfg.of_stmt[ws[0]])
+                return len(rd2) == 1 and rd2[0] is not cfg.entry and isinstance(rd2[0].ast, ast.Assign) and isinstance(rd2[0].ast.value, ast.Call) \
+                    and unparse(rd2[0].ast.value.func) == 'max' and 'quotient' in unparse(rd2[0].ast.value)
+            return False
+        okw = v is not None and isinstance(v, ast.BinOp) and isinstance(v.op, ast.Div) and ctx.canon(v.left, f) == 'E.V1' and _is_winner_quotient(v.right)
+    ctx.check(okw, R, ws[0] if ws else loop, f, 'QPQ 2.5a: a ballot that elected the winner is deemed to have elected 1/qc candidates',
+              'b.weight = V1 / <winner>.quotient', 'the new weight of the winner\'s ballots is not 1 / quotient of the winner')
+    # a restart (after an exclusion) un-elects everybody and sends every ballot back to its first preference with nothing elected
+    rs = [x for x in body_stmts if isinstance(x, ast.If) and isinstance(x.test, ast.Name)]
+    okr = False
+    for x in rs:
+        t_ = ' '.join(ctext(ctx, f, y) for y in x.body)
+        okr = okr or ('.unelect()' in t_ and '.restart(E.V0)' in t_)
+    ctx.check(okr, R, rs[0] if rs else loop, f, 'QPQ: after an exclusion the count restarts: everybody un-elected, every ballot back at its first preference with weight 0',
+              'if restart: for c in C.elected(): c.unelect(); for b in E.ballots: b.restart(V0); transfer(b)', 'restart block changed')
